@@ -18,11 +18,15 @@ import json, os, re, subprocess, sys, time
 
 REPO = '/repo'
 VERIF = '/verif'
-OUT = os.path.join(VERIF, 'tools', 'mutation_sweep_stmt.jsonl' if ('--mode' in sys.argv and 'stmt' in sys.argv) else 'mutation_sweep.jsonl')
+OUT = os.path.join(VERIF, 'tools', 'mutation_sweep_c19arith.jsonl' if '--regions' in sys.argv else ('mutation_sweep_stmt.jsonl' if ('--mode' in sys.argv and 'stmt' in sys.argv) else 'mutation_sweep.jsonl'))
 
 # (file, first line, last line, properties to try in order); line ranges are inclusive, 1-based, and
 # cover the code the three properties are anchored in (test modules and the PxE2<N> impls excluded)
 def regions():
+    if '--regions' in sys.argv and sys.argv[sys.argv.index('--regions') + 1] == 'c19arith':
+        # the arithmetic the samplers call: P32E2 subtraction of 1.0 from 1.x, and P16E1::form_ui
+        return [('src/p32e2/ops.rs', 33, 51, ['C19']), ('src/p32e2/ops.rs', 154, 185, ['C19']),
+                ('src/p32e2/ops.rs', 311, 385, ['C19']), ('src/p16e1/ops.rs', 13, 37, ['C19'])]
     r = []
     def upto_tests(path):
         lines = open(os.path.join(REPO, path)).read().split('\n')
